@@ -474,9 +474,12 @@ class CaseWhen(Statement):
         if isinstance(TypeQualifier.decay(cond.result), BitVector):
             root = TypeQualifier.decay(cond.result._root)
 
-            if isinstance(root, Unsigned):
+            # the vhdl type of (a slice of) an array element is the element type
+            root_type = root._elemtype_ if isinstance(root, Array) else type(root)
+
+            if issubclass(root_type, Unsigned):
                 cond = Value(cond.result.unsigned)
-            elif isinstance(root, Signed):
+            elif issubclass(root_type, Signed):
                 cond = Value(cond.result.signed)
             else:
                 cond = Value(cond.result.bitvector)
